@@ -276,3 +276,147 @@ func TestRegression_C13_F14_RangeCheckedFirst(t *testing.T) {
 		t.Fatalf("F14: Add(-Inf) returned %v", err)
 	}
 }
+
+func TestRegression_C03_F15_UpperBoundOfHighestBin(t *testing.T) {
+	for _, a := range []float64{0.4, 0.7, 0.75, 0.9, 0.95, 0.99} {
+		lin, _ := mapping.NewLinearlyInterpolatedMapping(a)
+		cub, _ := mapping.NewCubicallyInterpolatedMapping(a)
+		for _, m := range []mapping.IndexMapping{lin, cub} {
+			v := m.MaxIndexableValue()
+			i := m.Index(v)
+			if lb, ub := m.LowerBound(i), m.LowerBound(i+1); !(lb <= v && v <= ub) {
+				t.Fatalf("F15: %T(%v): the largest indexable value %v is in bin %d, whose bounds are %v and %v", m, a, v, i, lb, ub)
+			}
+		}
+	}
+}
+
+func TestRegression_C10_F16_ExactSumAcrossMergeChains(t *testing.T) {
+	m, _ := mapping.NewLogarithmicMapping(0.01)
+	s := ddsketch.NewDDSketchWithExactSummaryStatistics(m, store.DenseStoreConstructor)
+	_ = s.Add(1)
+	for i := 0; i < 400; i++ {
+		_ = s.Add(0x1p-54)
+		fresh := ddsketch.NewDDSketchWithExactSummaryStatistics(m, store.DenseStoreConstructor)
+		if err := fresh.MergeWith(s); err != nil {
+			t.Fatal(err)
+		}
+		s = fresh
+	}
+	if want, got := 1+400*0x1p-54, s.GetSum(); math.Abs(got-want) > 4*0x1p-52 {
+		t.Fatalf("F16: exact sum %v after 400 additions of 2^-54 to 1, each followed by a merge into a fresh sketch; expected %v (%.1f ulps off)", got, want, math.Abs(got-want)/0x1p-52)
+	}
+}
+
+func TestRegression_C10_F17_ExactExtremesAfterCountUnderflowedToZero(t *testing.T) {
+	for _, p := range []store.Provider{store.DenseStoreConstructor, store.SparseStoreConstructor, store.BufferedPaginatedStoreConstructor} {
+		m, _ := mapping.NewLogarithmicMapping(0.01)
+		s := ddsketch.NewDDSketchWithExactSummaryStatistics(m, p)
+		_ = s.Add(1)
+		_ = s.Add(-1000)
+		_ = s.Reweight(0x1p-600)
+		_ = s.Reweight(0x1p-600)
+		if !s.IsEmpty() || s.GetCount() != 0 || s.GetSum() != 0 {
+			t.Fatalf("F17: after every weight underflowed: empty=%v count=%v sum=%v", s.IsEmpty(), s.GetCount(), s.GetSum())
+		}
+		_ = s.Add(5)
+		mn, _ := s.GetMinValue()
+		mx, _ := s.GetMaxValue()
+		if mn != 5 || mx != 5 || s.GetSum() != 5 {
+			t.Fatalf("F17: a sketch whose former content underflowed to nothing, then Add(5): min=%v max=%v sum=%v", mn, mx, s.GetSum())
+		}
+	}
+}
+
+func TestRegression_C12_F18_DenseRangeAfterBinsUnderflowedToZero(t *testing.T) {
+	news := map[string]func() store.Store{
+		"dense":  func() store.Store { return store.NewDenseStore() },
+		"collow": func() store.Store { return store.NewCollapsingLowestDenseStore(8) },
+		"colhi":  func() store.Store { return store.NewCollapsingHighestDenseStore(8) },
+	}
+	for name, mk := range news {
+		s := mk()
+		s.AddWithCount(3, 0x1p-1074)
+		s.AddWithCount(7, 0x1p-1074)
+		_ = s.Reweight(0.5)
+		if !s.IsEmpty() || s.TotalCount() != 0 {
+			t.Fatalf("F18 %s: two bins of one subnormal unit halved: IsEmpty=%v TotalCount=%v", name, s.IsEmpty(), s.TotalCount())
+		}
+		s = mk()
+		s.AddWithCount(map[string]int{"dense": 1000, "collow": 2, "colhi": 9}[name], 1)
+		for i := 0; i < 1200; i++ {
+			_ = s.Reweight(0.5)
+			s.AddWithCount(5, 1)
+		}
+		mn, _ := s.MinIndex()
+		mx, _ := s.MaxIndex()
+		if mn != 5 || mx != 5 {
+			t.Fatalf("F18 %s: the only bin that still holds weight is 5, index range [%d,%d]", name, mn, mx)
+		}
+		// a collapsed edge bin that vanished no longer attracts what is added inside the window
+		s = mk()
+		light, heavy, inside := 0, 100, 95
+		if name == "colhi" {
+			light, heavy, inside = 100, 0, 5
+		}
+		s.AddWithCount(light, 1)
+		s.AddWithCount(heavy, 0x1p600)
+		_ = s.Reweight(0x1p-600)
+		_ = s.Reweight(0x1p-600)
+		_ = s.Reweight(0x1p600)
+		s.AddWithCount(inside, 1)
+		got := map[int]float64{}
+		s.ForEach(func(i int, c float64) bool { got[i] += c; return false })
+		if len(got) != 2 || got[heavy] != 1 || got[inside] != 1 {
+			t.Fatalf("F18 %s: expected bins %d and %d with weight 1 each, got %v", name, heavy, inside, got)
+		}
+	}
+	m, _ := mapping.NewLogarithmicMapping(0.01)
+	k := ddsketch.NewDDSketch(m, store.NewDenseStore(), store.NewDenseStore())
+	_ = k.Add(1000)
+	for i := 0; i < 1200; i++ {
+		_ = k.Reweight(0.5)
+		_ = k.Add(1)
+	}
+	if mx, _ := k.GetMaxValue(); !(mx < 1.02) {
+		t.Fatalf("F18: only the value 1 still holds weight, GetMaxValue=%v", mx)
+	}
+}
+
+func TestRegression_C13_F19_InfinitiesRefusedWithHugeBases(t *testing.T) {
+	for _, g := range []float64{1e214, 1e300, 1e306, math.MaxFloat64} {
+		lin, e1 := mapping.NewLinearlyInterpolatedMappingWithGamma(g, 0)
+		cub, e2 := mapping.NewCubicallyInterpolatedMappingWithGamma(g, 0)
+		if e1 != nil || e2 != nil {
+			continue
+		}
+		for _, m := range []mapping.IndexMapping{lin, cub} {
+			s := ddsketch.NewDDSketch(m, store.NewSparseStore(), store.NewSparseStore())
+			if err := s.Add(math.Inf(1)); !errors.Is(err, ddsketch.ErrUntrackableTooHigh) {
+				t.Fatalf("F19: %T(gamma=%v) (largest indexable value %v): Add(+Inf) returned %v", m, g, m.MaxIndexableValue(), err)
+			}
+			if err := s.Add(math.Inf(-1)); !errors.Is(err, ddsketch.ErrUntrackableTooLow) {
+				t.Fatalf("F19: %T(gamma=%v): Add(-Inf) returned %v", m, g, err)
+			}
+			if !s.IsEmpty() {
+				t.Fatalf("F19: refused additions left a count of %v", s.GetCount())
+			}
+		}
+	}
+}
+
+func TestRegression_C11_F20_QuantileNeverFromTheEmptySide(t *testing.T) {
+	m, _ := mapping.NewLogarithmicMapping(0.01)
+	for i := 0; i < 300; i++ {
+		s := ddsketch.NewDDSketch(m, store.NewSparseStore(), store.NewSparseStore())
+		_ = s.AddWithCount(-1, 0x1p20)
+		_ = s.AddWithCount(-10, 0x1p-33)
+		_ = s.AddWithCount(-100, 0x1p-33)
+		_ = s.Reweight(0x1p32)
+		for j := 0; j < 10; j++ {
+			if v, err := s.GetValueAtQuantile(1); err != nil || !(v < 0) {
+				t.Fatalf("F20: quantile 1 of a sketch that only holds negative values = %v, %v", v, err)
+			}
+		}
+	}
+}
